@@ -131,14 +131,14 @@ def php_sat(m, n, functional, onto):
 
 
 def spec_bphp(m, n):
-    bits = (n - 1).bit_length()
+    bits = (n - 1).bit_length() if n > 1 else 0          # no bits for at most one hole
     keys = {("v", (i, b)) for i in range(1, m + 1) for b in range(bits)}
 
     def spec(T, X):
         vals = {i: [X("v", i, b) for b in range(bits)] for i in range(1, m + 1)}   # little endian
         t = T.ones
         for i in vals:                       # the string of pigeon i is the name of a hole 0..n-1
-            t &= T.le(vals[i], n - 1)
+            t &= T.le(vals[i], n - 1) if n >= 1 else 0      # no hole: no name
         for i, j in combinations(range(1, m + 1), 2):    # no two pigeons in the same hole
             t &= T.neg(T.eq_digits(vals[i], vals[j]))
         return t
@@ -373,7 +373,7 @@ def legal(suite, info):
     if suite == "php":
         return info["m"] >= 0 and info["n"] >= 0
     if suite == "bphp":
-        return info["m"] >= 1 and info["n"] >= 1
+        return info["m"] >= 0 and info["n"] >= 0           # since the fix of D42 (was: both >= 1)
     if suite == "rphp":
         return min(info["m"], info["r"], info["n"]) >= 0
     if suite == "count":
@@ -404,7 +404,7 @@ def specification(suite, info):
     if suite == "bphp":
         m, n = info["m"], info["n"]
         keys, spec = spec_bphp(m, n)
-        return keys, spec, m * (n - 1).bit_length(), m <= n
+        return keys, spec, m * ((n - 1).bit_length() if n > 1 else 0), m <= n
     if suite == "rphp":
         m, r, n = info["m"], info["r"], info["n"]
         keys, spec = spec_rphp(m, r, n)
@@ -582,7 +582,7 @@ def small_infos(suite, rng, tier):
         elif suite == "bphp":
             for m in range(1, 9):
                 for n in list(range(1, 10)) + ([15, 16, 17] if big else [16]):
-                    if m * (n - 1).bit_length() <= 40 and (m <= 6 or n <= 9):
+                    if m * max(n - 1, 0).bit_length() <= 40 and (m <= 6 or n <= 9):
                         out.append(dict(m=m, n=n, opb=opb))
         elif suite == "rphp":
             top = 8 if big else 5
@@ -695,7 +695,8 @@ def corpus_infos():
         ("php", dict(m=3, n=3, f=1, o=1, opb=False)),
         ("gphp", dict(l=3, r=2, edges=[(3, 1), (1, 2), (1, 1)], f=0, o=0, opb=False, shape="corpus")),
         ("gphp", dict(l=2, r=0, edges=[], f=1, o=1, opb=False, shape="corpus")),
-        ("bphp", dict(m=0, n=1, opb=False)),                       # D37: documented legal, raises
+        ("bphp", dict(m=0, n=1, opb=False)),                       # D42 (fixed): documented legal, used to raise
+        ("bphp", dict(m=1, n=0, opb=False)), ("bphp", dict(m=3, n=0, opb=True)), ("bphp", dict(m=0, n=0, opb=True)),
         ("bphp", dict(m=3, n=1, opb=False)),                       # zero bits
         ("bphp", dict(m=3, n=5, opb=False)),
         ("rphp", dict(m=2, r=0, n=2, opb=False)),                  # no resting place: block `r` never created
